@@ -49,7 +49,7 @@ def scenarios(tier, seed):
                     if hist == 0:
                         sc["ops"] = [{"op": "integrate"}]
                     elif hist == 1:
-                        sc["ops"] = [{"op": "integrate", "t": Q(0.4)}, {"op": "integrate", "t": Q(0.4)}, {"op": "integrate"}]
+                        sc["ops"] = [{"op": "integrate", "t": Q(0.4)}, {"op": "query"}, {"op": "integrate", "t": Q(0.4)}, {"op": "integrate"}]
                     elif hist == 2:
                         sc["ops"] = [{"op": "integrate", "events": [{"kind": "time", "c": Q(0.3)}, {"kind": "time", "c": Q(0.55), "term": True}]},
                                      {"op": "integrate"}]
